@@ -76,7 +76,6 @@ func applyTag(t *rapid.T, target map[string]any, parts []map[string]any) (string
 	svc := svcs[name].(map[string]any)
 	g := &mgen{t: t}
 	table := serviceAttrTable()
-	tag := rapid.SampledFrom([]string{"!reset", "!override"}).Draw(t, "tag")
 	i := rapid.IntRange(0, len(parts)-2).Draw(t, "tagbase")
 	j := rapid.IntRange(i+1, len(parts)-1).Draw(t, "tagover")
 	setSvc := func(part map[string]any, k string, v any) {
@@ -102,44 +101,56 @@ func applyTag(t *rapid.T, target map[string]any, parts []map[string]any) (string
 	// candidate attributes: generated without references to other resources
 	simple := map[string]bool{"cap_add": true, "dns": true, "environment": true, "labels": true, "command": true, "healthcheck": true, "logging": true,
 		"ulimits": true, "ports": true, "sysctls": true, "extra_hosts": true, "hostname": true, "deploy": true, "security_opt": true, "tmpfs": true, "expose": true}
-	var cands []attrGen
-	for _, a := range table {
-		if !simple[a.key] {
+	// one to three tags on different attributes of the same service, in the same part
+	ntags := rapid.IntRange(1, 3).Draw(t, "ntags")
+	used := map[string]bool{}
+	var applied []string
+	for n := 0; n < ntags; n++ {
+		tag := rapid.SampledFrom([]string{"!reset", "!override"}).Draw(t, "tag")
+		var cands []attrGen
+		for _, a := range table {
+			if !simple[a.key] || used[a.key] {
+				continue
+			}
+			_, inTarget := svc[a.key]
+			if (tag == "!reset") != inTarget {
+				cands = append(cands, a)
+			}
+		}
+		if len(cands) == 0 {
 			continue
 		}
-		_, inTarget := svc[a.key]
-		if (tag == "!reset") != inTarget {
-			cands = append(cands, a)
+		a := cands[rapid.IntRange(0, len(cands)-1).Draw(t, "tagattr")]
+		if _, hasDeploy := svc["deploy"]; a.key == "deploy" && tag == "!reset" && !hasDeploy {
+			// a deploy block in the base could conflict with service-level resource settings: skip
+			if svc["cpus"] != nil || svc["mem_limit"] != nil || svc["mem_reservation"] != nil || svc["pids_limit"] != nil || svc["container_name"] != nil {
+				continue
+			}
 		}
-	}
-	if len(cands) == 0 {
-		return "", target
-	}
-	a := cands[rapid.IntRange(0, len(cands)-1).Draw(t, "tagattr")]
-	if _, hasDeploy := svc["deploy"]; a.key == "deploy" && tag == "!reset" && !hasDeploy {
-		// a deploy block in the base could conflict with service-level resource settings: skip
-		if svc["cpus"] != nil || svc["mem_limit"] != nil || svc["mem_reservation"] != nil || svc["pids_limit"] != nil || svc["container_name"] != nil {
-			return "", target
+		used[a.key] = true
+		decoy := a.gen(g, name)
+		for _, p := range parts {
+			dropSvc(p, a.key)
 		}
-	}
-	decoy := a.gen(g, name)
-	for _, p := range parts {
-		dropSvc(p, a.key)
-	}
-	setSvc(parts[i], a.key, decoy)
-	if tag == "!reset" {
-		var placeholder any
-		switch decoy.(type) {
-		case []any:
-			placeholder = []any{}
-		case map[string]any:
-			placeholder = map[string]any{}
+		setSvc(parts[i], a.key, decoy)
+		if tag == "!reset" {
+			var placeholder any
+			switch decoy.(type) {
+			case []any:
+				placeholder = []any{}
+			case map[string]any:
+				placeholder = map[string]any{}
+			}
+			setSvc(parts[j], a.key, tagged{Tag: "!reset", V: placeholder})
+		} else {
+			setSvc(parts[j], a.key, tagged{Tag: "!override", V: cloneTree(svc[a.key])})
 		}
-		setSvc(parts[j], a.key, tagged{Tag: "!reset", V: placeholder})
-	} else {
-		setSvc(parts[j], a.key, tagged{Tag: "!override", V: cloneTree(svc[a.key])})
+		applied = append(applied, tag+":"+a.key)
 	}
-	return tag + ":" + a.key, target
+	if len(applied) > 1 {
+		return "several:" + strings.Join(applied, "+"), target
+	}
+	return strings.Join(applied, ""), target
 }
 
 func genC04(t *rapid.T) c04Case {
